@@ -30,7 +30,9 @@ RULE = (
     "(table_name, column_0[_N]_{name,key,label}, column_1_name, referred_*, constraint_name, custom callable) plus literal padding, explicit plain / conv() names, "
     "6 dialects x max_identifier_length in {native, 10..128}. labels: 1-3 one-row tables, 1-4 FROM objects (table, anonymous/named alias, subquery, anonymous/named CTE), "
     "5-60 select items (column, anonymous label, explicit label, unlabelled expression, literal, named bindparam), 0-8 anonymous WHERE binds, label style default / "
-    "TABLENAME_PLUS_COL, label_length in {None, 1..40}. Non-trivial: >=2 generated names of the case exceed the limit and share the retained prefix (truncation alone must "
+    "TABLENAME_PLUS_COL, label_length in {None, 1..40}; WHERE comparisons are '=' or expanding IN; one CAST item per column; in a third of the cases a user-named non-unique bindparam (with a value or required) "
+    "is given exactly the name the compiler generated for an anonymous bind of the same statement (plain or label_length-truncated form) and placed before/after it in WHERE, in the SELECT list or in a scalar subquery "
+    "(class named-bind-vs-anon-name; accepted outcomes: CompileError, or distinct names with every value reaching its own placeholder). Non-trivial: >=2 generated names of the case exceed the limit and share the retained prefix (truncation alone must "
     "disambiguate) - ddl: constraint names vs max length; labels: generated labels/binds vs label_length; distinct = canonical JSON of the case"
 )
 ASSUMPTIONS = [
@@ -38,7 +40,8 @@ ASSUMPTIONS = [
     "explicit (plain str) names are the user's responsibility: only IdentifierError beyond dialect.max_identifier_length is required; MySQL's narrower 64-char index/constraint limit for explicit names is not demanded",
     "uniqueness of md5-truncated constraint names is not documented and not required (counted as info)",
     "labels: real column names and explicit labels never end in '_<hex>' (known finding: generated disambiguation labels do not avoid existing real names)",
-    "a CompileError 'conflicts with unique bind parameter' is an accepted loud outcome for bind-name clashes",
+    "a CompileError ('conflicts with unique bind parameter' / 'reserved for automatic usage' / 'Can't reuse bound parameter name') is the accepted loud outcome for bind-name clashes; two distinct elements silently sharing one bind name/value is the violation",
+    "known findings excluded by construction and pinned: expanding-IN item names ('a_1_1') colliding with an anonymous bind of a real column named 'a_1' (real names never end in _<hex>); more than one CAST of a column in a SELECT list",
     "cross-process determinism is sampled (xproc), not run for every case",
 ]
 
@@ -250,17 +253,35 @@ def check_labels(case, ctx):
     ll = c.get("label_length") or None
     md, tables, tvals, stmt, expected, info = L.build_select(c)
     eng = _sqlite_engine(ll)
+    nb_classes = []
     try:
         dialect = eng.dialect
         eff = ll or dialect.max_identifier_length
+        nb = c.get("nbind")
+        if nb:
+            # resolve the name the compiler generates for one anonymous bind of this very statement and give it to a user-named bind
+            base = stmt.compile(dialect=dialect)
+            anon = [p for p in base.params if p not in info["explicit"]]
+            if anon:
+                pos = NB_POS[nb[1] % len(NB_POS)]
+                c = dict(c, nbind_resolved={"name": anon[nb[0] % len(anon)], "pos": pos, "required": bool(nb[2])})
+                md, tables, tvals, stmt, expected, info = L.build_select(c)
+                nb_classes = ["named-bind-vs-anon-name", "nbind:" + pos, "nbind:required" if nb[2] else "nbind:valued"]
+                if len(anon[nb[0] % len(anon)]) > (eff - 6) and ll:
+                    nb_classes.append("nbind:truncated-name")
+        for _ in range(info["excluded_casts"]):
+            ctx.exclude("second CAST of one column in a SELECT list (known finding: CAST de-duplication label ignores the occurrence index)")
+        nbr = c.get("nbind_resolved")
+        extra = {nbr["name"]: L.NBIND_VALUE} if nbr and nbr.get("required") else {}
         comps = []
         try:
             for rep in range(3):
                 comp = (stmt if rep < 2 else L.build_select(c)[3]).compile(dialect=dialect)
                 comps.append((str(comp), sorted(comp.params.items())))
         except exc.CompileError as e:
-            if "conflicts with unique bind parameter" in str(e):
-                ctx.note(case, False, classes=["bind-conflict-CompileError"])
+            if "conflicts with unique bind parameter" in str(e) or "is reserved for automatic usage" in str(e) or "Can't reuse bound parameter name" in str(e):
+                # documented loud outcome (a); counted non-trivial when the clash was constructed on purpose
+                ctx.note(case, bool(nb_classes), classes=["bind-conflict-CompileError"] + nb_classes)
                 return
             raise
         comp = stmt.compile(dialect=dialect)
@@ -278,7 +299,14 @@ def check_labels(case, ctx):
         kinds = {f[0] for f in c["froms"]}
         classes.update("from=" + k for k in kinds)
         classes.add("items>=20" if len(expected) >= 20 else "items<20")
-        ctx.note(case, nontrivial, classes=classes)
+        classes.update(nb_classes)
+        if nb_classes:
+            classes.add("nbind-compiled-without-error")
+        if any(len(w) > 2 and w[2] for w in c.get("where", [])):
+            classes.add("expanding-in")
+        if any(it[0] == "cast" for it in c["items"]):
+            classes.add("cast-item")
+        ctx.note(case, nontrivial or bool(nb_classes), classes=classes)
 
         if not (comps[0] == comps[1] == comps[2]):
             raise Violation("C21/labels/non-deterministic-compile", "three compilations of the same statement differ", observed=[x[0][:400] for x in comps])
@@ -289,6 +317,8 @@ def check_labels(case, ctx):
         if dup:
             real_clash = [k for k in dup if k in info["real"] or k in info["explicit"]]
             sig = "C21/labels/generated-label-collides-with-real-name" if real_clash else "C21/labels/duplicate-result-column-name"
+            if not real_clash and any(it[0] == "cast" for it in c["items"]) and all("__" in k for k in dup):
+                sig = "C21/labels/repeated-cast-dedupe-label-ignores-index"
             raise Violation(sig, f"result-column names are not distinct: {sorted(dup)[:5]} in {keys[:12]}...", observed=keys[:40], expected="pairwise distinct")
         # (b) generated names within label_length (documented: '_<counter>' when label_length < 6)
         if ll and ll >= 6:
@@ -296,11 +326,26 @@ def check_labels(case, ctx):
             if over:
                 raise Violation("C21/labels/generated-name-exceeds-label_length", f"label_length={ll}: generated names {over[:4]}", observed=over[:10], expected=f"<= {ll} chars")
         # (c) bind parameters: one per distinct element, values intact
-        exp_params = sorted([v for v in expected if v >= 100000] + [tv for w in c.get("where", []) for tv in [_where_val(c, w, tvals)]] +
-                            [it[3] % 50 for it in _kept_exprs(c)])
-        got_params = sorted(comp.params.values())
+        exp_params = [v for v in expected if v >= 100000 and not (nbr and nbr["pos"].startswith("select") and v == L.NBIND_VALUE)]
+        for k, w in enumerate(c.get("where", [])):
+            exp_params.append(_where_val(c, w, tvals))
+            if len(w) > 2 and w[2]:
+                exp_params.append(900000 + k)
+        exp_params += [it[3] % 50 for it in _kept_exprs(c)]
+        if nbr:
+            exp_params.append(L.NBIND_VALUE)
+        exp_params.sort()
+        # names as they reach the cursor (expanding IN parameters rendered): one name per distinct element, values intact
+        pc = stmt.compile(dialect=dialect, compile_kwargs={"render_postcompile": True})
+        got_params = sorted(pc.construct_params(extra).values())
         if got_params != exp_params:
-            raise Violation("C21/labels/bind-parameters-merged-or-lost", f"bind values {got_params[:20]} != expected {exp_params[:20]} (names {pnames[:10]})", observed=got_params[:60], expected=exp_params[:60])
+            sig = "C21/labels/bind-parameters-merged-or-lost"
+            if nbr and got_params.count(L.NBIND_VALUE) != 1 or (nbr and len(got_params) < len(exp_params)):
+                sig = "C21/binds/named-bind-shares-name-with-anonymous-bind"
+            elif any(len(w) > 2 and w[2] for w in c.get("where", [])) and len(got_params) < len(exp_params):
+                sig = "C21/binds/expanding-in-name-collides-with-anonymous-bind"
+            raise Violation(sig, f"bind values reaching the cursor {got_params[:20]} != one per distinct element {exp_params[:20]} (names {list(pc.params)[:12]}; SQL {str(pc)[:300]!r})",
+                            observed=got_params[:60], expected=exp_params[:60])
         # (d) behaviour on live SQLite
         with warnings.catch_warnings():
             warnings.simplefilter("ignore")
@@ -308,9 +353,12 @@ def check_labels(case, ctx):
                 md.create_all(conn)
                 for t, vals in zip(tables, tvals):
                     conn.execute(t.insert().values(**{k: v for k, v in vals.items()}))
-                res = conn.execute(stmt)
+                res = conn.execute(stmt, extra) if extra else conn.execute(stmt)
                 rkeys = list(res.keys())
-                row = res.one()
+                rows = res.all()
+        if len(rows) != 1:
+            raise Violation("C21/labels/wrong-rows", f"the statement selects the single row of each table but returned {len(rows)} rows: a bind value reached the wrong placeholder", observed=[list(r) for r in rows][:5], expected=[expected[:20]])
+        row = rows[0]
         if rkeys != keys:
             raise Violation("C21/labels/result-keys-differ-from-compiled", f"{rkeys[:8]} vs {keys[:8]}", observed=rkeys[:40], expected=keys[:40])
         # known finding: the Select-level de-duplication key ("x_1") of another column is also registered as a string key of
@@ -335,6 +383,9 @@ def check_labels(case, ctx):
                 raise Violation("C21/labels/wrong-value-by-label", f"row._mapping[{k!r}] = {v!r}, the element labelled so has value {ev!r}", observed=v, expected=ev)
     finally:
         eng.dispose()
+
+
+NB_POS = ["first", "last", "select_first", "select_last", "subq_first", "subq_last"]
 
 
 def _where_val(c, w, tvals):
@@ -428,7 +479,10 @@ def _label_cases(draw):
     items = []
     nitems = draw(st.sampled_from([5, 8, 12, 20, 35, 60]))
     for _ in range(nitems):
-        k = draw(st.sampled_from(["col", "col", "col_anon", "col_anon", "col_lbl", "expr", "expr", "expr_lbl", "lit", "lit", "bind"]))
+        k = draw(st.sampled_from(["col", "col", "col_anon", "col_anon", "col_lbl", "expr", "expr", "expr_lbl", "lit", "lit", "bind", "cast"]))
+        if k == "cast":
+            items.append([k, draw(st.integers(0, 3)), draw(st.integers(0, 5)), draw(st.integers(1, 2))])
+            continue
         if k in ("col", "col_anon"):
             items.append([k, draw(st.integers(0, 3)), draw(st.integers(0, 5))])
         elif k == "col_lbl":
@@ -441,8 +495,9 @@ def _label_cases(draw):
             items.append([k])
         else:
             items.append([k, draw(st.sampled_from([2, 30, 100])), draw(st.integers(0, 255))])
-    where = [[draw(st.integers(0, 3)), draw(st.integers(0, 5))] for _ in range(draw(st.integers(0, 8)))]
-    return {"dialect": 3, "maxlen": 0, "label_length": ll, "style": draw(st.sampled_from(["default", "tq", "tq"])), "tables": tables, "froms": froms, "items": items, "where": where}
+    where = [[draw(st.integers(0, 3)), draw(st.integers(0, 5)), int(draw(st.integers(0, 3)) == 0)] for _ in range(draw(st.integers(0, 8)))]
+    nbind = [draw(st.integers(0, 20)), draw(st.integers(0, 5)), int(draw(st.integers(0, 2)) == 0)] if draw(st.integers(0, 2)) == 0 else None
+    return {"dialect": 3, "maxlen": 0, "label_length": ll, "style": draw(st.sampled_from(["default", "tq", "tq"])), "tables": tables, "froms": froms, "items": items, "where": where, "nbind": nbind}
 
 
 # ----------------------------------------------------------------------------- cross-process determinism
